@@ -93,8 +93,31 @@ CHECKS = {
         "Known finding K1 (c_g differentiates the published EOS, density follows the substituted one) "
         "is classified numerically at each point; any other mismatch is reported.",
         "4/C07"),
-    "C08": (False, EX, "", "", "", "4/C08"),
-    "C09": (False, EX, "", "", "", "4/C09"),
+    "C08": (
+        True, EX,
+        "complete enumeration of compositions x ordered pressure pairs / triples (three routes compared) "
+        "and of synthetic (grid x integrand) tables for the stand-alone transform",
+        "For every composition of the lattice the table is built by build_pvt_gas, the stand-alone "
+        "transform is applied to its columns and the adaptive quadrature is evaluated at every node "
+        "pressure; all ordered pairs must agree within the trapezoid remainder bound of the 10-psi grid "
+        "(derived per pair from the table's own integrand), all ordered triples must be additive (1e-8), "
+        "every route is zero at its reference and strictly increasing; the stand-alone transform is "
+        "compared with Gauss-Legendre integration on uniform, geometric and irregular grids.",
+        "QUADPACK's error estimate is trusted far below the tolerance; pair lattice uses on-node pressures.",
+        "4/C08"),
+    "C09": (
+        True, EX,
+        "complete enumeration of tables x container x construction branch x p_i position, with every "
+        "table cell queried, plus all single-missing-column subsets and rescale cases",
+        "Every (table, DataFrame|dict, long|user-alpha|simple, p_i in {first, node, mid, off-node, last, "
+        "below, above}) construction is executed: strict monotonicity of m-scaled, m_i consistency and "
+        "its analytic bound in the user-alpha branch, node diffusivity 1/(c mu), lookups at -inf..inf and "
+        "at three interior points of every table cell (finite, within the table's range), byte-level "
+        "snapshot of the caller's table, ValueError/KeyError for each missing column and out-of-table "
+        "p_i, rescale end points to 1e-12 for both containers.",
+        "Tables satisfy the precondition (increasing pressure, positive properties; rows with zero "
+        "pseudopressure are dropped before the user-alpha branch).",
+        "4/C09"),
     "C10": (
         True, MC,
         "explicit-state BFS over call histories on the real object, states merged on a hash of "
